@@ -30,12 +30,14 @@ pub struct Out {
     pub samples: Vec<J>,
     pub mismatches: Vec<J>, // direction A only
     pub classes: std::collections::BTreeMap<String, u64>, // events per op and outcome class (vacuity guard)
+    pub keep_convpanic: bool, // a panic of the filter-configuration conversion is data for C03 / C09 and a skipped sample elsewhere
 }
 impl Out {
     pub fn new(path: &str) -> Self {
-        Out { w: BufWriter::new(std::fs::File::create(path).expect("create output")), events: 0, calls: 0, nontrivial: 0, seen: HashSet::new(), samples: vec![], mismatches: vec![], classes: Default::default() }
+        Out { w: BufWriter::new(std::fs::File::create(path).expect("create output")), events: 0, calls: 0, nontrivial: 0, seen: HashSet::new(), samples: vec![], mismatches: vec![], classes: Default::default(), keep_convpanic: false }
     }
     pub fn emit(&mut self, e: J, nontrivial: bool) {
+        if e.get("op").and_then(|o| o.as_str()) == Some("convpanic") && !self.keep_convpanic { return; }
         let line = serde_json::to_string(&e).unwrap();
         if let Some(op) = e.get("op").and_then(|o| o.as_str()) {
             let v = e.get("res").and_then(|r| r.get("v")).and_then(|v| v.as_str()).unwrap_or("-");
